@@ -1,11 +1,11 @@
 (* Mini/MiniProofs.v — the theorems of the MiniVHDL development put together (proofs).
-   Typing soundness: Mini/ProofsTyping.v; phrase replacement (phrase-level faults and rewrites): Mini/ProofsPhrase.v;
-   syntactic faults and unit independence: Mini/ProofsZap.v; agreement lemmas, declaration swap, added
-   declaration: Mini/ProofsAgree.v. *)
+   Typing soundness: Mini/ProofsTyping.v; phrase replacement (phrase-level faults and rewrites): Mini/ProofsPhrase.v
+   (+ ProofsPhraseRepl.v); syntactic faults, duplicate declarations, unit independence: Mini/ProofsZap.v (+ helpers);
+   agreement lemmas, declaration swap, added declaration: Mini/ProofsAgree.v (+ helpers). *)
 From Coq Require Import List NArith Arith Bool.
 Import ListNotations.
 From RH Require Import Mini.Syntax Mini.Sem Mini.Typing Mini.Gen Mini.Walk Mini.Faults Mini.Rewrites.
-From RH Require Export Mini.ProofsTyping.
+From RH Require Export Mini.ProofsTyping Mini.ProofsPhrase Mini.ProofsZap Mini.ProofsAgree.
 Open Scope N_scope.
 
 Lemma valid_b_Valid : forall p, valid_b p = true <-> Valid p.
@@ -25,4 +25,126 @@ Proof.
   - exact fallback_valid.
 Qed.
 
-(* Valid implies well-typed (mode AtLeast) is not needed by the properties; the two modes differ only in `crit` *)
+(* ------------------------------------------------------------------------------------------ *)
+(* C05: every rewrite preserves validity; closed under composition                              *)
+(* ------------------------------------------------------------------------------------------ *)
+Theorem rewrite_valid : forall r p, Valid p -> applicable r p = true -> Valid (apply_rewrite r p).
+Proof.
+  intros r p HV HA. destruct r as [s|s|s|s x|s|s lbl|s x k].
+  - exact (swap_valid p s HV HA).
+  - exact (rewrite_phrase_valid p (RNamed s) HV I HA).
+  - exact (rewrite_phrase_valid p (RPositional s) HV I HA).
+  - exact (rewrite_phrase_valid p (RSelected s x) HV I HA).
+  - (* RUseItems: `applicable` re-runs the reference on the result *)
+    unfold applicable in HA. apply andb_true_iff in HA. destruct HA as [_ HA].
+    apply valid_b_Valid. exact HA.
+  - exact (rewrite_phrase_valid p (RWrap s lbl) HV I HA).
+  - exact (adddecl_valid p s x k HV HA).
+Qed.
+
+Theorem rewrites_valid : forall rs p, Valid p -> applicable_all rs p = true -> Valid (apply_rewrites rs p).
+Proof.
+  induction rs as [|r rs IH]; intros p HV HA.
+  - exact HV.
+  - cbn [applicable_all] in HA. apply andb_true_iff in HA. destruct HA as [H1 H2].
+    cbn [apply_rewrites]. apply IH; [apply rewrite_valid; assumption|exact H2].
+Qed.
+
+(* ------------------------------------------------------------------------------------------ *)
+(* C06: every fault of the catalogue is blamed where `expect` says                              *)
+(* ------------------------------------------------------------------------------------------ *)
+Lemma occs_of_kind_In : forall k p s, In s (occs_of_kind k p) -> exists x, In (s, k, x) (occs_program p).
+Proof.
+  intros k p s H. unfold occs_of_kind in H. apply in_flat_map in H. destruct H as [[[n k'] x] [Hin H]].
+  cbn [fst snd] in H. destruct (okind_eqb k' k) eqn:E; [|destruct H].
+  destruct H as [H|[]]. subst n. exists x.
+  assert (k' = k) by (destruct k', k; try discriminate; reflexivity). subst k'. exact Hin.
+Qed.
+
+Lemma sites_candidates : forall f p st, In st (sites f p) -> In st (site_candidates f p) /\ eligible f st p = true.
+Proof. intros f p st H. unfold sites in H. apply filter_In in H. exact H. Qed.
+
+Lemma zap_site_blame : forall p k s c,
+  Valid p -> NoDup (nids_program p) -> In s (occs_of_kind k p) -> cls_of_okind k = Some c ->
+  blame_program (plant (SZap s) p) = Some (s, c).
+Proof.
+  intros p k s c HV Hnd Hin Hc. destruct (occs_of_kind_In k p s Hin) as [x Hx].
+  cbn [plant]. exact (zap_blame p s k x c HV Hnd Hx Hc).
+Qed.
+
+Theorem planted_blame : forall p f st,
+  Valid p -> NoDup (nids_program p) -> In st (sites f p) ->
+  blame_program (plant st p) = Some (expect f st p).
+Proof.
+  intros p f st HV Hnd Hin.
+  destruct f;
+    try (apply plant_phrase_blame; try assumption; unfold phrase_class; tauto);
+    destruct (sites_candidates _ p st Hin) as [Hc _]; cbn [site_candidates] in Hc.
+  - (* FUndeclared *)
+    apply in_map_iff in Hc. destruct Hc as [s [E Hs]]. subst st. apply in_app_or in Hs. destruct Hs as [Hs|Hs].
+    + exact (zap_site_blame p OUse s Undeclared HV Hnd Hs eq_refl).
+    + exact (zap_site_blame p OLibPrefix s Undeclared HV Hnd Hs eq_refl).
+  - (* FDuplicate *)
+    apply in_map_iff in Hc. destruct Hc as [s [E Hs]]. subst st. cbn [plant]. exact (dup_blame p s HV Hnd Hs).
+  - apply in_map_iff in Hc. destruct Hc as [s [E Hs]]. subst st. exact (zap_site_blame p OField s UnknownField HV Hnd Hs eq_refl).
+  - apply in_map_iff in Hc. destruct Hc as [s [E Hs]]. subst st. exact (zap_site_blame p OItem s UnknownItem HV Hnd Hs eq_refl).
+  - apply in_map_iff in Hc. destruct Hc as [s [E Hs]]. subst st. exact (zap_site_blame p OLibClause s UnknownLib HV Hnd Hs eq_refl).
+  - apply in_map_iff in Hc. destruct Hc as [s [E Hs]]. subst st. exact (zap_site_blame p OUnit s UnknownUnit HV Hnd Hs eq_refl).
+  - apply in_map_iff in Hc. destruct Hc as [s [E Hs]]. subst st. exact (zap_site_blame p OArch s UnknownArch HV Hnd Hs eq_refl).
+  - apply in_map_iff in Hc. destruct Hc as [s [E Hs]]. subst st. exact (zap_site_blame p OFormal s UnknownFormal HV Hnd Hs eq_refl).
+Qed.
+
+Theorem planted_invalid : forall p f st,
+  Valid p -> NoDup (nids_program p) -> In st (sites f p) -> ~ Valid (plant st p).
+Proof.
+  intros p f st HV Hnd Hin HV'. pose proof (planted_blame p f st HV Hnd Hin) as Hb.
+  unfold blame_program in Hb. unfold Valid in HV'. rewrite HV' in Hb. discriminate Hb.
+Qed.
+
+(* the generated programs satisfy the hypotheses whenever the decidable checks say so *)
+Lemma gen_hyps : forall choices, nodup_nids (gen_program choices) = true ->
+  Valid (gen_program choices) /\ NoDup (nids_program (gen_program choices)).
+Proof. intros choices H. split; [apply gen_valid|apply nodup_nids_sound; exact H]. Qed.
+
+(* ------------------------------------------------------------------------------------------ *)
+(* the example program: two libraries, overloaded subprograms, a site for every fault class     *)
+(* ------------------------------------------------------------------------------------------ *)
+Definition example_choices : list N := map (fun k => (N.of_nat k * 139 + 12) mod 1000) (seq 0 2500).
+Definition example_program : program := gen_program example_choices.
+(* names declared by more than one subprogram declaration of one package *)
+Definition sub_names (ds : list decl) : list ident :=
+  flat_map (fun d => match d with DFunDecl o _ _ | DProcDecl o _ => [o_id o] | _ => [] end) ds.
+Fixpoint has_dup (l : list ident) : bool :=
+  match l with [] => false | x :: r => existsb (N.eqb x) r || has_dup r end.
+Definition has_overloads (p : program) : bool :=
+  existsb (fun l => existsb (fun u => match u_body u with UPkg _ ds | UGen _ _ ds => has_dup (sub_names ds) | _ => false end)
+                            (l_units l)) p.
+
+Lemma example_C05 :
+  let p := example_program in
+  map (fun l => Nat.ltb 0 (length (l_units l))) p = [true; true] /\
+  has_overloads p = true /\ valid_b p = true /\ nodup_nids p = true /\ gen_fell_back example_choices = false /\
+  exists rs, length rs = 3%nat /\ applicable_all rs p = true /\
+             Nat.eqb (length (nids_program (apply_rewrites rs p))) (length (nids_program p)) = false.
+Proof.
+  cbv zeta.
+  split; [vm_compute; reflexivity|].
+  split; [vm_compute; reflexivity|].
+  split; [vm_compute; reflexivity|].
+  split; [vm_compute; reflexivity|].
+  split; [vm_compute; reflexivity|].
+  exists [RSwap 391; RNamed 328; RAddDecl 135 139 0].
+  split; [reflexivity|].
+  split; [vm_compute; reflexivity|vm_compute; reflexivity].
+Qed.
+
+Lemma example_C06 :
+  let p := example_program in
+  valid_b p = true /\ nodup_nids p = true /\
+  forallb (fun f => negb (Nat.eqb (length (sites f p)) 0)) all_fclasses = true.
+Proof.
+  cbv zeta.
+  split; [vm_compute; reflexivity|].
+  split; [vm_compute; reflexivity|].
+  vm_compute; reflexivity.
+Qed.
